@@ -567,8 +567,9 @@ Definition cell_fits (t : ctype) (c : cellv) : bool :=
   | None => true
   | Some b =>
       match t with
-      | TInt => Nat.eqb (List.length b) 4
-      | TBigInt => Nat.eqb (List.length b) 8
+      (* a zero-length value of a fixed-width type is CQL's "empty" value: CqlValue::Empty *)
+      | TInt => Nat.eqb (List.length b) 4 || Nat.eqb (List.length b) 0
+      | TBigInt => Nat.eqb (List.length b) 8 || Nat.eqb (List.length b) 0
       | TText => forallb (fun x => x <? 128) b      (* the tie only produces ASCII text *)
       | TBlob => true
       end
@@ -604,6 +605,43 @@ Fixpoint decode_rows (cols : list col) (nrows : nat) (cells : list cellv) : opti
       end
   end.
 
+(* untyped view: rows_count chunks of |cols| raw cells (what ColumnIterator yields) *)
+Fixpoint take_cells (n : nat) (cells : list cellv) : option (list cellv * list cellv) :=
+  match n with
+  | O => Some ([], cells)
+  | Datatypes.S k =>
+      match cells with
+      | [] => None
+      | x :: r => match take_cells k r with Some (a, b) => Some (x :: a, b) | None => None end
+      end
+  end.
+Fixpoint chunk_rows (ncols nrows : nat) (cells : list cellv) : option (list (list cellv)) :=
+  match nrows with
+  | O => Some []
+  | Datatypes.S k =>
+      match take_cells ncols cells with
+      | Some (row, rest) =>
+          match chunk_rows ncols k rest with Some rows => Some (row :: rows) | None => None end
+      | None => None
+      end
+  end.
+
+(* what the caller of the public API can observe of an outcome: the column specifications of the
+   result, the paging state, the rows as raw cells, whether typed decoding (Row) succeeds *)
+Inductive obs_out :=
+| OB_rows (cols : list col) (paging : option bytes) (rows : option (list (list cellv))) (typed_ok : bool)
+| OB_norows
+| OB_err (e : err).
+
+Definition obs_of_outcome (o : outcome) : obs_out :=
+  match o with
+  | O_rows u pg nr cl =>
+      OB_rows (m_cols u) pg (chunk_rows (List.length (m_cols u)) (N.to_nat nr) cl)
+              (match decode_rows (m_cols u) (N.to_nat nr) cl with Some _ => true | None => false end)
+  | O_norows => OB_norows
+  | O_err e => OB_err e
+  end.
+
 (* ------------------------------------------------------------------------------------ *)
 (* acceptors for recorded traces (sequential callers): they BUILD a run of the systems    *)
 (* above, label by label, from what the mock cluster recorded, and compare every request  *)
@@ -615,8 +653,8 @@ Fixpoint decode_rows (cols : list col) (nrows : nat) (cells : list cellv) : opti
 Record xchg := mkXchg { x_req : request; x_resp : resp; x_enc : list col; x_pay : payload }.
 
 Inductive top :=
-| TO_exec (nd : nat) (ext : bool) (a : xargs) (xs : list xchg) (out : outcome)
-| TO_batch (nd : nat) (ext : bool) (b : bargs) (xs : list xchg) (out : outcome)
+| TO_exec (nd : nat) (ext : bool) (a : xargs) (xs : list xchg) (out : obs_out)
+| TO_batch (nd : nat) (ext : bool) (b : bargs) (xs : list xchg) (out : obs_out)
 | TO_event (nd : nat) (e : nevent).
 
 Inductive verdict (A : Type) :=
@@ -677,6 +715,15 @@ Definition outcome_eqb (a b : outcome) : bool :=
   | O_err e, O_err e' => err_eqb e e'
   | _, _ => false
   end.
+Definition obs_out_eqb (a b : obs_out) : bool :=
+  match a, b with
+  | OB_rows c p r t, OB_rows c' p' r' t' =>
+      list_eqb col_eqb c c' && obytes_eqb p p' &&
+      opt_eqb (list_eqb (list_eqb cellv_eqb)) r r' && Bool.eqb t t'
+  | OB_norows, OB_norows => true
+  | OB_err e, OB_err e' => err_eqb e e'
+  | _, _ => false
+  end.
 Definition rmeta_eqb (a b : rmeta) : bool :=
   match a, b with
   | RM_none n, RM_none m => N.eqb n m
@@ -704,12 +751,12 @@ Definition g_tick_if_needed (ST : nat -> stmt) (st : gstate) (c : nat) : gstate 
 Definition waiting (cs : cstate) : bool :=
   match cs with CS_exec1 _ _ | CS_prep _ | CS_exec2 _ _ | CS_batch _ | CS_bprep _ _ => true | _ => false end.
 
-Fixpoint g_feed (ST : nat -> stmt) (st : gstate) (c : nat) (pos : nat) (xs : list xchg) (out : outcome)
+Fixpoint g_feed (ST : nat -> stmt) (st : gstate) (c : nat) (pos : nat) (xs : list xchg) (out : obs_out)
   : verdict gstate :=
   match xs with
   | [] =>
       match k_st (g_calls st c) with
-      | CS_done o => if outcome_eqb o out then V_ok st else V_out (CS_done o)
+      | CS_done o => if obs_out_eqb (obs_of_outcome o) out then V_ok st else V_out (CS_done o)
       | cs => if waiting cs then V_req pos (last_sent st c) else V_out cs
       end
   | x :: r =>
@@ -760,11 +807,11 @@ Definition s_tick_if_needed (D : schema) (ST : nat -> stmt) (ns : nat) (st : sst
   end.
 
 Fixpoint s_feed (D : schema) (ST : nat -> stmt) (ns : nat) (st : sstate) (c : nat) (pos : nat)
-  (xs : list xchg) (out : outcome) : verdict sstate :=
+  (xs : list xchg) (out : obs_out) : verdict sstate :=
   match xs with
   | [] =>
       match k_st (g_calls (s_g st) c) with
-      | CS_done o => if outcome_eqb o out then V_ok st else V_out (CS_done o)
+      | CS_done o => if obs_out_eqb (obs_of_outcome o) out then V_ok st else V_out (CS_done o)
       | cs => if waiting cs then V_req pos (s_out st c) else V_out cs
       end
   | x :: r =>
@@ -830,25 +877,34 @@ Definition same_core (f g : exec_frame) : bool :=
   opt_eqb N.eqb (f_serial f) (f_serial g) && opt_eqb N.eqb (f_page_size f) (f_page_size g) &&
   obytes_eqb (f_paging f) (f_paging g) && opt_eqb Z.eqb (f_ts f) (f_ts g).
 
-Definition is_err (o : outcome) : bool := match o with O_err _ => true | _ => false end.
+Definition is_err (o : obs_out) : bool := match o with OB_err _ => true | _ => false end.
 
 (* the caller's view of a final answer, as far as the property speaks about it: rows / no rows /
-   error, and for rows: the payload unchanged and, when [check_cols], the decoding columns =
-   the columns the node encoded the rows with *)
-Definition normal_result (check_cols : bool) (x : xchg) (out : outcome) : bool :=
+   error, and for rows: decoded with the columns sent in that response if any, and (when
+   [check_cols]: connection with the extension, or cached metadata not used) with the columns
+   the node encoded the rows with; then the rows are the node's cells cut into rows of that width *)
+Definition normal_result (check_cols : bool) (x : xchg) (out : obs_out) : bool :=
   match x_resp x, out with
-  | RRows b, O_rows u pg nr cl =>
-      obytes_eqb pg (rb_paging b) && N.eqb nr (rb_nrows b) && list_eqb cellv_eqb cl (rb_cells b) &&
-      (negb check_cols || list_eqb col_eqb (m_cols u) (x_enc x)) &&
-      match rb_meta b with RM_full _ cols => list_eqb col_eqb (m_cols u) cols | RM_none _ => true end
+  | RRows b, OB_rows cols pg rows _ =>
+      obytes_eqb pg (rb_paging b) &&
+      (negb check_cols ||
+       (list_eqb col_eqb cols (x_enc x) &&
+        opt_eqb (list_eqb (list_eqb cellv_eqb)) rows
+                (chunk_rows (List.length (x_enc x)) (N.to_nat (rb_nrows b)) (rb_cells b)))) &&
+      match rb_meta b with
+      | RM_full _ sent => list_eqb col_eqb cols sent &&
+                          opt_eqb (list_eqb (list_eqb cellv_eqb)) rows
+                                  (chunk_rows (List.length sent) (N.to_nat (rb_nrows b)) (rb_cells b))
+      | RM_none _ => true
+      end
   | RRows _, _ => false
-  | (RVoid | ROtherResult | RPrepared _ _), O_norows => true
-  | (RUnprepared _ | RDbError _ | ROther), O_err _ => true
+  | (RVoid | ROtherResult | RPrepared _ _), OB_norows => true
+  | (RUnprepared _ | RDbError _ | ROther), OB_err _ => true
   | _, _ => false
   end.
 
 Definition prop_exec_ok (ST : nat -> stmt) (faithful_expected : bool) (a : xargs) (xs : list xchg)
-  (out : outcome) : bool :=
+  (out : obs_out) : bool :=
   let st := ST (xa_stmt a) in
   match xs with
   | [x1] =>
@@ -862,7 +918,7 @@ Definition prop_exec_ok (ST : nat -> stmt) (faithful_expected : bool) (a : xargs
       | Q_execute f1, RUnprepared _, Q_prepare t, RPrepared id _ =>
           (* only acceptable when the id changed: error, and nothing was resent *)
           N.eqb t (s_text st) && negb (bytes_eqb id (s_id st)) &&
-          match out with O_err E_IdChanged => true | _ => false end
+          match out with OB_err E_IdChanged => true | _ => false end
       | Q_execute f1, RUnprepared _, Q_prepare t, _ => N.eqb t (s_text st) && is_err out
       | _, _, _, _ => false
       end
@@ -878,7 +934,7 @@ Definition prop_exec_ok (ST : nat -> stmt) (faithful_expected : bool) (a : xargs
 
 (* batch: every BATCH frame identical; after UNPREPARED(id) a PREPARE of a statement of the batch
    with that id; a PREPARED with another id ends the call with the error and nothing is resent *)
-Fixpoint prop_batch_tail (ST : nat -> stmt) (b : bargs) (F : batch_frame) (xs : list xchg) (out : outcome) : bool :=
+Fixpoint prop_batch_tail (ST : nat -> stmt) (b : bargs) (F : batch_frame) (xs : list xchg) (out : obs_out) : bool :=
   match xs with
   | [] => false
   | x :: r =>
@@ -886,13 +942,13 @@ Fixpoint prop_batch_tail (ST : nat -> stmt) (b : bargs) (F : batch_frame) (xs : 
       | Q_batch G, RUnprepared id =>
           batch_frame_eqb F G &&
           match find_prepared ST (ba_items b) id, r with
-          | None, [] => match out with O_err E_IdMissingInBatch => true | _ => false end
+          | None, [] => match out with OB_err E_IdMissingInBatch => true | _ => false end
           | Some p, y :: r' =>
               match x_req y, x_resp y with
               | Q_prepare t, RPrepared id' _ =>
                   N.eqb t (s_text (ST p)) &&
                   if bytes_eqb id' (s_id (ST p)) then prop_batch_tail ST b F r' out
-                  else match r', out with [], O_err E_IdChanged => true | _, _ => false end
+                  else match r', out with [], OB_err E_IdChanged => true | _, _ => false end
               | Q_prepare t, _ => N.eqb t (s_text (ST p)) && match r' with [] => is_err out | _ => false end
               | _, _ => false
               end
